@@ -191,11 +191,11 @@ def _oc_and_call(draw):
 
 def _subset(draw, universe, empty_one_in=12):
     """a subset of `universe` in which every element is kept with probability ~1/2 (hypothesis' sets() are mostly tiny)"""
-    # (the all-zero choice sequence, which hypothesis replays often, must give the FULL set: otherwise many generated cases collapse into one)
+    # (the all-zero choice sequence, which hypothesis replays often, gives the one-element set: an EMPTY default would let many generated cases collapse into one)
     if empty_one_in and draw(st.integers(1, empty_one_in)) == empty_one_in:
         return []
     mask = draw(st.lists(st.booleans(), min_size=len(universe), max_size=len(universe)))
-    return [x for x, leave_out in zip(universe, mask) if not leave_out]
+    return [x for x, keep in zip(universe, mask) if keep] or [universe[0]]
 
 
 @st.composite
